@@ -118,6 +118,7 @@ static std::vector<Stream *>               g_all;
 static std::map<std::string, int>          g_fileids;
 static std::vector<Event>                  g_events;
 static std::vector<WriteRec>               g_wlog;
+static bool                                g_wlog_sites = false;
 static std::vector<Fault>                  g_faults;
 static std::vector<std::string>            g_mut, g_misuse;
 static std::map<std::string, std::string>  g_env;
@@ -355,6 +356,7 @@ uint64_t            event_hash() { return g_evhash; }
 const std::vector<WriteRec> &writelog() { return g_wlog; }
 void                clear_writelog() { g_wlog.clear(); }
 void                keep_writelog(bool on) { g_keep_wlog = on; }
+void                keep_writelog_sites(bool on) { g_wlog_sites = on; }
 void                freeze(const std::string &path, bool on)
 {
     auto it = g_disk.find(path);
@@ -443,6 +445,48 @@ static bool fault_applies(int fk, int evk)
     }
     return false;
 }
+// library call chain at this point, innermost first (frame-pointer walk: everything is built with
+// -fno-omit-frame-pointer; far cheaper than backtrace()); optionally without the generic element I/O layer
+static std::string call_chain(int maxkeep, bool drop_generic)
+{
+    static const char *generic[] = {"HP_write", "HP_read", "HPseek", "Hwrite", "Hread", "Hseek", "Hputelement",
+                                    "Hgetelement", "Hstartaccess", "Hstartread", "Hstartwrite", "Hendaccess",
+                                    "Hlength", "hi_close_stdio", "Hinquire", "HTPinquire", nullptr};
+    std::string out;
+    void       *pcs[48];
+    int         n = 0, kept = 0;
+    void      **fp = (void **)__builtin_frame_address(0);
+    while (fp && n < 48) {
+        void  *ret  = fp[1];
+        void **next = (void **)fp[0];
+        if (!ret)
+            break;
+        pcs[n++] = ret;
+        if (next <= fp || (char *)next - (char *)fp > (1 << 20))
+            break;
+        fp = next;
+    }
+    for (int i = 0; i < n && kept < maxkeep; i++) {
+        char buf[256] = "";
+        __sanitizer_symbolize_pc((char *)pcs[i] - 1, "%f", buf, sizeof buf);
+        std::string fn(buf);
+        if (fn.empty() || fn.find("simfs") != std::string::npos || fn.find("__wrap_") != std::string::npos ||
+            fn.find("__interceptor") != std::string::npos || fn.find("backtrace") != std::string::npos ||
+            fn.find("take_fault") != std::string::npos || fn == "writeout" || fn == "disk_write" || fn == "begin_event" ||
+            fn == "call_chain" || fn == "log_write")
+            continue;
+        if (fn.find("h4::") != std::string::npos || fn == "execute" || fn == "main" || fn.find("judge") != std::string::npos)
+            break; // reached the harness
+        bool gen = false;
+        for (int g = 0; drop_generic && generic[g]; g++)
+            gen |= fn == generic[g];
+        if (gen)
+            continue;
+        out += (kept ? "<" : "") + fn;
+        kept++;
+    }
+    return out;
+}
 // returns the fault kind to apply to this event (F_NONE if none)
 static int take_fault(Ev &ev, Stream *s)
 {
@@ -451,42 +495,7 @@ static int take_fault(Ev &ev, Stream *s)
         fk               = ev.fault->kind;
         ev.fault->fired = true;
         if (g_fault_site.empty()) {
-            // library call chain at the fault, innermost first, without the generic element I/O layer
-            static const char *generic[] = {"HP_write", "HP_read", "HPseek", "Hwrite", "Hread", "Hseek", "Hputelement",
-                                            "Hgetelement", "Hstartaccess", "Hstartread", "Hstartwrite", "Hendaccess",
-                                            "Hlength", "hi_close_stdio", "Hinquire", "HTPinquire", nullptr};
-            // frame-pointer walk (everything is built with -fno-omit-frame-pointer): far cheaper than backtrace()
-            void  *pcs[40];
-            int    n = 0, kept = 0;
-            void **fp = (void **)__builtin_frame_address(0);
-            while (fp && n < 40) {
-                void  *ret  = fp[1];
-                void **next = (void **)fp[0];
-                if (!ret)
-                    break;
-                pcs[n++] = ret;
-                if (next <= fp || (char *)next - (char *)fp > (1 << 20))
-                    break;
-                fp = next;
-            }
-            for (int i = 0; i < n && kept < 3; i++) {
-                char buf[256] = "";
-                __sanitizer_symbolize_pc((char *)pcs[i] - 1, "%f", buf, sizeof buf);
-                std::string fn(buf);
-                if (fn.empty() || fn.find("simfs") != std::string::npos || fn.find("__wrap_") != std::string::npos ||
-                    fn.find("__interceptor") != std::string::npos || fn.find("backtrace") != std::string::npos ||
-                    fn.find("take_fault") != std::string::npos || fn == "writeout" || fn == "disk_write" || fn == "begin_event")
-                    continue;
-                if (fn.find("h4::") != std::string::npos || fn == "execute" || fn == "main" || fn.find("judge") != std::string::npos)
-                    break; // reached the harness
-                bool gen = false;
-                for (int g = 0; generic[g]; g++)
-                    gen |= fn == generic[g];
-                if (gen)
-                    continue;
-                g_fault_site += (kept ? "<" : "") + fn;
-                kept++;
-            }
+            g_fault_site = call_chain(3, true);
             if (g_fault_site.empty())
                 g_fault_site = "?";
         }
@@ -517,6 +526,8 @@ static void log_write(const std::string &path, int64_t off, const uint8_t *p, in
     w.op    = g_op;
     w.evseq = seq;
     w.data.assign(p, p + n);
+    if (g_wlog_sites)
+        w.site = call_chain(12, false);
     g_wlog.push_back(std::move(w));
 }
 static void log_meta(int kind, const std::string &path, const std::string &path2, uint32_t seq)
